@@ -79,6 +79,18 @@ pub fn corpus() -> Vec<Prog> {
             Some(|a: &[E], _b: &[E], _s: i32| RefOut::Stream(a.iter().take(2).copied().collect())));
         prog!(v, c_zip_count_fold, "a.cross_singleton(s.zip(source_iter.fold))", Seq, b = false, s = true, keyed = false,
             Some(|a: &[E], _b: &[E], s: i32| RefOut::Stream(a.iter().map(|(k, v)| (*k, v + 100 * s + 11000)).collect())));
+        prog!(v, c_bounded_fold_stream, "source_iter.fold().into_stream().chain(a)", Seq, b = false, s = false, keyed = false,
+            Some(|a: &[E], _b: &[E], _s: i32| {
+                let mut v = vec![(9, 11)];
+                v.extend_from_slice(a);
+                RefOut::Stream(v)
+            }));
+        prog!(v, c_bounded_reduce_stream, "source_iter.reduce().into_stream().chain(a)", Seq, b = false, s = false, keyed = false,
+            Some(|a: &[E], _b: &[E], _s: i32| {
+                let mut v = vec![(9, 11)];
+                v.extend_from_slice(a);
+                RefOut::Stream(v)
+            }));
         prog!(v, c_optional_or, "a.filter.max().or(b.min())", Last, b = true, s = false, keyed = false,
             Some(|a: &[E], b: &[E], _s: i32| {
                 let m = a.iter().filter(|e| e.1 == 2).max().copied().or(b.iter().min().copied());
